@@ -416,6 +416,57 @@ def decode (N : Num) (T : Ty) (ne : NodeEdge) (v : Val) : DecodeOut :=
   { val := { id := if ne.id.isEmpty then v.id else ne.id, parent := if ne.parent.isEmpty then v.parent else ne.parent, fields := fs },
     err := e, panic := pm }
 
+/-! ## child lists -/
+/-- a field tagged `child:"<node type>"`: a slice of structs of type `ty` (one level: the element type has no
+    child fields of its own) -/
+structure ChildField where
+  ctype : Bytes
+  ty : Ty
+  deriving Repr
+
+/-- one `child` field of `Decode`: untouched when no child of the node has its type; otherwise a fresh slice with one
+    element per such child, in the order of the children, each decoded into the zero value -/
+def decodeKidField (N : Num) (cf : ChildField) (children : List (Bytes × NodeEdge)) (cur : List Val) :
+    List Val × Bool × Option String :=
+  let g := children.filter (fun c => c.1 == cf.ctype)
+  if g.isEmpty then (cur, false, none)
+  else
+    let outs := g.map (fun c => decode N cf.ty c.2 (zero cf.ty))
+    (outs.map (·.val), outs.any (·.err), (outs.find? (fun o => o.panic.isSome)).bind (·.panic))
+
+def decodeKids (N : Num) (children : List (Bytes × NodeEdge)) : List ChildField → List (List Val) → List (List Val) × Bool × Option String
+  | [], _ => ([], false, none)
+  | cf :: cfs, cur :: curs =>
+    let r := decodeKidField N cf children cur
+    match r.2.2 with
+    | some m => (r.1 :: curs, r.2.1, some m)
+    | none =>
+      let rest := decodeKids N children cfs curs
+      (r.1 :: rest.1, r.2.1 || rest.2.1, rest.2.2)
+  | _ :: _, [] => ([], false, some "missing child list")
+
+/-- `Decode` of a node with children into a value with child lists -/
+def decodeC (N : Num) (T : Ty) (kfs : List ChildField) (ne : NodeEdge) (children : List (Bytes × NodeEdge))
+    (v : Val) (cur : List (List Val)) : DecodeOut × List (List Val) :=
+  let d := decode N T ne v
+  match d.panic with
+  | some _ => (d, cur)
+  | none =>
+    let r := decodeKids N children kfs cur
+    ({ d with err := d.err || r.2.1, panic := r.2.2 }, r.1)
+
+/-- the children handed to `Decode`: every element of every child list encoded, with the field's node type -/
+def encodeKids (N : Num) : List ChildField → List (List Val) → Res (List (Bytes × NodeEdge))
+  | [], _ => .ok []
+  | cf :: cfs, ks :: kss =>
+    (match mapM' (fun k => encode N cf.ty k) ks with
+     | .ok nes => (match encodeKids N cfs kss with
+       | .ok rest => .ok (nes.map (fun ne => (cf.ctype, ne)) ++ rest)
+       | e => e)
+     | .err e => .err e
+     | .panic m => .panic m)
+  | _ :: _, [] => .panic "missing child list"
+
 /-- `MergePoints` / `MergeEdgePoints` on the top-level struct: the node id (and parent) must match -/
 def mergePoints (N : Num) (T : Ty) (id : Bytes) (pts : List Point) (v : Val) : Option DecodeOut :=
   if id.isEmpty ∨ v.id ≠ id then none else some (decode N T { id := id, points := pts } v)
